@@ -136,13 +136,11 @@ fn compile_prologue__nil_setting_is_the_schemes() {
 fn compile_ordering_int__operator_table_and_nil_default() {
     let nil: bool = kani::any();
     let scheme = scheme_of(&[(Type::Int, false)], true);
-    let ctx = ExecutionContext::<()>::new(&scheme);
     let a: i64 = kani::any();
     let b: i64 = kani::any();
     let op = any_ordering_op();
     unsafe {
         PROBE = Some(LhsValue::Int(a));
-        CTX = &ctx as *const ExecutionContext<'_, ()> as *const ();
     }
     let compiled = extracted::arm_ordering(field_lhs(&scheme, 0), &mut NoCompiler, nil, op, RhsValue::Int(b));
     std::mem::forget(compiled);
@@ -152,31 +150,24 @@ fn compile_ordering_int__operator_table_and_nil_default() {
     check_default(op, nil);
     kani::cover!(op == OrderingOp::NotEqual && nil);
     kani::cover!(op == OrderingOp::LessThan && a == i64::MIN && b == i64::MAX);
-    std::mem::forget(ctx);
     std::mem::forget(scheme);
 }
 
 /// `ip <op> lit`: per-family order, an IPv4 and an IPv6 address are unordered (only
-/// `!=` holds), nil default as above.
-#[kani::proof]
-#[kani::unwind(18)]
-#[kani::stub(crate::ast::index_expr::IndexExpr::compile_with, crate::ast::field_expr::verif_kani::common::compile_with__contract)]
-fn compile_ordering_ip__operator_table_and_nil_default() {
+/// `!=` holds), nil default as above.  The two address families are constants of each
+/// obligation (4 obligations); addresses and operator are symbolic.
+fn ordering_ip_body(a_is4: bool, b_is4: bool) {
     let nil: bool = kani::any();
     let scheme = scheme_of(&[(Type::Ip, false)], true);
-    let ctx = ExecutionContext::<()>::new(&scheme);
     let a4: u32 = kani::any();
     let b4: u32 = kani::any();
     let a6: u128 = kani::any();
     let b6: u128 = kani::any();
-    let a_is4: bool = kani::any();
-    let b_is4: bool = kani::any();
     let a = if a_is4 { IpAddr::V4(Ipv4Addr::from(a4)) } else { IpAddr::V6(Ipv6Addr::from(a6)) };
     let b = if b_is4 { IpAddr::V4(Ipv4Addr::from(b4)) } else { IpAddr::V6(Ipv6Addr::from(b6)) };
     let op = any_ordering_op();
     unsafe {
         PROBE = Some(LhsValue::Ip(a));
-        CTX = &ctx as *const ExecutionContext<'_, ()> as *const ();
     }
     let compiled = extracted::arm_ordering(field_lhs(&scheme, 0), &mut NoCompiler, nil, op, RhsValue::Ip(b));
     std::mem::forget(compiled);
@@ -191,10 +182,25 @@ fn compile_ordering_ip__operator_table_and_nil_default() {
         assert!(REC_RESULT == Some(want), "per-family IP order; across families only != holds");
     }
     check_default(op, nil);
-    kani::cover!(a_is4 && !b_is4 && op == OrderingOp::NotEqual);
-    std::mem::forget(ctx);
+    kani::cover!(want);
+    kani::cover!(!want);
     std::mem::forget(scheme);
 }
+
+macro_rules! ip_ordering_case {
+    ($name:ident, $unwind:literal, $a4:literal, $b4:literal) => {
+        #[kani::proof]
+        #[kani::unwind($unwind)]
+        #[kani::stub(crate::ast::index_expr::IndexExpr::compile_with, crate::ast::field_expr::verif_kani::common::compile_with__contract)]
+        fn $name() {
+            ordering_ip_body($a4, $b4)
+        }
+    };
+}
+ip_ordering_case!(compile_ordering_ip__v4_v4, 6, true, true);
+ip_ordering_case!(compile_ordering_ip__v4_v6, 6, true, false);
+ip_ordering_case!(compile_ordering_ip__v6_v4, 6, false, true);
+ip_ordering_case!(compile_ordering_ip__v6_v6, 18, false, false);
 
 /// `n & mask` (bitwise-and test): true iff some bit is common, on all of i64 x i64
 /// (including results with only the sign bit set); absent left side: false.
@@ -204,12 +210,10 @@ fn compile_ordering_ip__operator_table_and_nil_default() {
 fn compile_bitwise_and__nonzero_intersection() {
     let nil: bool = kani::any();
     let scheme = scheme_of(&[(Type::Int, false)], true);
-    let ctx = ExecutionContext::<()>::new(&scheme);
     let a: i64 = kani::any();
     let b: i64 = kani::any();
     unsafe {
         PROBE = Some(LhsValue::Int(a));
-        CTX = &ctx as *const ExecutionContext<'_, ()> as *const ();
     }
     let compiled = extracted::arm_int_bitwise_and(field_lhs(&scheme, 0), &mut NoCompiler, nil, b);
     std::mem::forget(compiled);
@@ -219,7 +223,6 @@ fn compile_bitwise_and__nonzero_intersection() {
         assert!(REC_DEFAULT == Some(false), "absent left side is false");
     }
     kani::cover!(a < 0 && b < 0);
-    std::mem::forget(ctx);
     std::mem::forget(scheme);
 }
 
@@ -228,14 +231,14 @@ fn compile_bitwise_and__nonzero_intersection() {
 #[kani::unwind(4)]
 #[kani::stub(crate::ast::index_expr::IndexExpr::compile_with, crate::ast::field_expr::verif_kani::common::compile_with__contract)]
 #[kani::stub(crate::ast::index_expr::IndexExpr::compile_vec_with, crate::ast::field_expr::verif_kani::common::compile_vec_with__contract)]
+#[kani::stub(<crate::ast::index_expr::IndexExpr as crate::types::GetType>::get_type, crate::ast::field_expr::verif_kani::common::index_expr_get_type__contract)]
 fn compile_is_true__bare_boolean_field() {
     let nil: bool = kani::any();
     let scheme = scheme_of(&[(Type::Bool, false)], true);
-    let ctx = ExecutionContext::<()>::new(&scheme);
     let a: bool = kani::any();
     unsafe {
         PROBE = Some(LhsValue::Bool(a));
-        CTX = &ctx as *const ExecutionContext<'_, ()> as *const ();
+        LHS_TYPE = Some(Type::Bool);
     }
     let compiled = extracted::arm_is_true(field_lhs(&scheme, 0), &mut NoCompiler, nil);
     std::mem::forget(compiled);
@@ -244,6 +247,51 @@ fn compile_is_true__bare_boolean_field() {
         assert!(REC_RESULT == Some(a), "a bare boolean field is its value");
         assert!(REC_DEFAULT == Some(false), "absent boolean field is false");
     }
-    std::mem::forget(ctx);
+    std::mem::forget(scheme);
+}
+
+/// `b <op> "lit"` on byte strings: lexicographic byte order (a proper prefix is
+/// smaller), for every operator; values and literal of length 0..=2, symbolic bytes.
+#[kani::proof]
+#[kani::unwind(6)]
+#[kani::stub(crate::ast::index_expr::IndexExpr::compile_with, crate::ast::field_expr::verif_kani::common::compile_with__contract)]
+fn compile_ordering_bytes__lexicographic() {
+    static mut XB: [u8; 2] = [0; 2];
+    let nil: bool = kani::any();
+    let scheme = scheme_of(&[(Type::Bytes, false)], true);
+    let xb: [u8; 2] = kani::any();
+    let xlen: usize = kani::any();
+    let lb: [u8; 2] = kani::any();
+    let llen: usize = kani::any();
+    kani::assume(xlen <= 2 && llen <= 2);
+    let op = any_ordering_op();
+    #[allow(static_mut_refs)]
+    unsafe {
+        XB = xb;
+        PROBE = Some(LhsValue::Bytes(Bytes::Borrowed(&XB[..xlen])));
+    }
+    let lit = crate::rhs_types::BytesExpr::new(lb[..llen].to_vec(), crate::rhs_types::BytesFormat::Quoted);
+    let compiled = extracted::arm_ordering(field_lhs(&scheme, 0), &mut NoCompiler, nil, op, RhsValue::Bytes(lit));
+    std::mem::forget(compiled);
+    // reference lexicographic comparison, written out
+    let mut ord = std::cmp::Ordering::Equal;
+    let mut i = 0;
+    while i < 2 {
+        if ord == std::cmp::Ordering::Equal {
+            if i < xlen && i < llen {
+                ord = if xb[i] < lb[i] { std::cmp::Ordering::Less } else if xb[i] > lb[i] { std::cmp::Ordering::Greater } else { ord };
+            } else if i < llen {
+                ord = std::cmp::Ordering::Less;
+            } else if i < xlen {
+                ord = std::cmp::Ordering::Greater;
+            }
+        }
+        i += 1;
+    }
+    unsafe {
+        assert!(REC_RESULT == Some(reference(op, ord)), "byte strings compare lexicographically");
+    }
+    check_default(op, nil);
+    kani::cover!(xlen == 1 && llen == 2 && xb[0] == lb[0]);
     std::mem::forget(scheme);
 }
